@@ -1027,7 +1027,15 @@ impl<'a, 'b> GeneratorState<'a> {
                                     .compiler_state
                                     .syntax_error("Break statement outside loop", pos))
                             }
-                            Some((cl, _, _)) => cl.clone(),
+                            Some((cl, _, _)) => {
+                                if cl.is_empty() {
+                                    // A switch outside any loop
+                                    return Err(self
+                                        .compiler_state
+                                        .syntax_error("Continue statement outside loop", pos));
+                                }
+                                cl.clone()
+                            }
                         }
                     };
                     self.generate_condition(condition, pos, false, &cont_label, false)?;
@@ -1143,7 +1151,12 @@ impl<'a, 'b> GeneratorState<'a> {
             }
         }
         self.label(&switchend_label)?;
-        self.loops.pop();
+        // A continue inside the switch is a continue of the enclosing loop: let it know
+        if let Some((_, _, true)) = self.loops.pop() {
+            if let Some(l) = self.loops.last_mut() {
+                l.2 = true;
+            }
+        }
         Ok(())
     }
 }
